@@ -760,3 +760,56 @@ def _(c):
 def _dom_m(d):
     k = z3.Const('k', z3.StringSort())
     return z3.Lambda([k], z3.Not(OptEntMap.is_none(z3.Select(d, k))))
+
+
+# --------------------------------------------------------------------------
+# single-path checks of the loader (C01, C16)
+
+def _lookup_model(it, bound, node):
+    """trusted call-site view of ManifestRecursiveLoader.find_path_entry: some entry or None, or one of its errors"""
+    ctx = it.ctx
+    it.engine.assumed.add('contract of ManifestRecursiveLoader.find_path_entry assumed at the call site (loads and verifies '
+                          'the applicable Manifests, returns the matching entry or None)')
+    d = ctx.choose(3, 'find_path_entry')
+    if d == 1:
+        from vp.symex import PyRaise
+        raise PyRaise(VExc('GematoException', [], {}, line=getattr(node, 'lineno', None)))
+    if d == 2:
+        from vp.symex import PyRaise
+        e = VExc('OSError', [], {}, line=getattr(node, 'lineno', None))
+        e.attrs['errno'] = VInt(ctx.fresh_const('errno', z3.IntSort()))
+        raise PyRaise(e)
+    return Opt(PathEntry).fresh(ctx, 'found_entry')
+
+
+@contract('gemato/recursiveloader.py', 'ManifestRecursiveLoader.find_path_entry', props=['C01'])
+def _(c):
+    c.params(self=RL, path=Str)
+    c.trusted = True
+    c.model = _lookup_model
+    c.note('body (search over the applicable Manifests, most specific first) is outside the subset; bounded stand-ins')
+
+
+def _checks_this_path(s, args, kwargs, raw):
+    ed = opt_term(kwargs.get('expected_dev'), OptInt)
+    rec = [r for r in s._it.ctx.call_log if r[0].endswith('find_path_entry')]
+    asked = rec[-1][1][0] == s.relpath if rec else z3.BoolVal(False)
+    return z3.And(args[0] == join2(s.self.root_directory, s.relpath), ed == s.self.manifest_device, asked)
+
+
+@contract('gemato/recursiveloader.py', 'ManifestRecursiveLoader.verify_path', props=['C01', 'C16', 'C18'])
+def _(c):
+    c.params(self=RL, relpath=Str)
+    c.returns(Any)
+    c.only_raises(*GEMATO_ERRORS)
+    c.site('checks-the-file-under-the-root-with-its-entry-and-the-manifest-device', 'verify_path', _checks_this_path,
+           props=['C01', 'C16'])
+
+
+@contract('gemato/recursiveloader.py', 'ManifestRecursiveLoader.assert_path_verifies', props=['C01', 'C16', 'C18'])
+def _(c):
+    c.params(self=RL, relpath=Str)
+    c.returns(NoneT)
+    c.only_raises(*GEMATO_ERRORS)
+    c.site('checks-the-file-under-the-root-with-its-entry-and-the-manifest-device', 'verify_path', _checks_this_path,
+           props=['C01', 'C16'])
